@@ -22,8 +22,30 @@ typedef __CPROVER_rational T;     /* EXACT mode: the mathematical rationals    *
 int bs_exc;
 
 /* integer literals converted to T (static_cast<T>(k), implicit int->T) */
+#ifdef BS_SYMBOLIC_TLIT
+/* the literal as an arbitrary value ASSUMED equal to k: symbolic execution then never folds rational constants (cbmc's
+ * simplifier aborts on some of them, std_expr.cpp:90); the meaning is the same */
+static inline T bs_tlit(int k)
+{
+  T r;
+  __CPROVER_assume(r == k);
+  return r;
+}
+#define BS_TLIT(k) bs_tlit(k)
+#define BS_TLIT_NEG(k) bs_tlit(-(k))
+/* -a as the value r with r + a == 0 (same meaning; the simplifier aborts on (-a) * b in the unwound interpolate) */
+static inline T bs_neg(T a)
+{
+  T r;
+  __CPROVER_assume(r + a == 0);
+  return r;
+}
+#define BS_NEG(a) bs_neg(a)
+#else
 #define BS_TLIT(k) (k)
 #define BS_TLIT_NEG(k) (-(k))
+#define BS_NEG(a) (-(a))
+#endif
 
 /* scalar multiplication and division as the extracted code performs them.  Under BS_OPAQUE_MUL they are
  * uninterpreted functions: a proof that goes through for arbitrary binary functions holds for * and / in
